@@ -70,16 +70,18 @@ PROPS["C18"] = {
 }
 
 PROPS["C16"] = {
-    "imports": ["NsyncVerif.Props.C16Buffer", "NsyncVerif.Props.C16Observer", "NsyncVerif.Props.C01"],
+    "imports": ["NsyncVerif.Props.C16Buffer", "NsyncVerif.Props.C16Observer", "NsyncVerif.Props.C01", "NsyncVerif.Props.C16CvObserver"],
     "theorems": ["NsyncVerif.Emit." + t for t in ["C16_buffer", "C16_cstr_unique", "C16_mu_debug_state", "C16_cv_debug_state"]] +
                 ["NsyncVerif.Props.C16Observer.C16_mu_observer", "NsyncVerif.Props.C16Observer.C16_shares_untouched", "NsyncVerif.Props.C16Observer.spinOnly_spec"] +
-                ["NsyncVerif.Props.C01.C01_exclusion", "NsyncVerif.Props.C01.C01_word_agrees"],
-    "layers": ["mux"],
+                ["NsyncVerif.Props.C01.C01_exclusion", "NsyncVerif.Props.C01.C01_word_agrees"] +
+                ["NsyncVerif.CvFix." + t for t in ["C16_cv_observer", "C16_cv_observer_holds_word", "C16_cv_no_lost_wake", "C16_cv_observer_release_exact", "C16_cv_observer_progress",
+                 "C16_cv_observer_bounded_hold", "C16_cv_observer_first_load", "C16_cv_observer_never_sleeps", "C16_cv_observer_record_access", "C16_cv_stale_release_rejected"]],
+    "layers": ["mux", "cv"],
     "pure": [{"name": "emit_gen", "dir": "emit", "flavours": [""], "layer": "emit"}],
     "oracles": {"mismatch", "debug-buffer", "exclusion", "exclusion-ann", "panic", "stuck", "crash"},
     "plan": {"quick": [("debug", 150, 8)], "thorough": [("debug", 1500, 16)]},
     "extra_corpus": ["C01"],
-    "level_text": "Buffer half: kernel-checked theorem C16_buffer over the Emit model (emit_init/emit_c/emit_print of debug.c) for every n (incl. 0 and negative) and every NUL-free character stream: writes only inside buf[0..n-1], NUL-terminated for n>=1, ends in '...' when truncated and n>=4, untruncated output is exact; tied by a differential run of the real debug.c (canaries around the buffer, all n in -1..80, states with 0..3 queued waiters). Observer half (mutex): in the MuX protocol a debug-state call is an `observe` call whose only admitted writes toggle MU_SPINLOCK and nothing else; C16_mu_observer proves that a step of an observing thread changes no owner, no client-visible holder, no lock bit and none of the six hint bits (the wake-up bookkeeping), for every reachable state and interleaving, and C01's exclusion theorem quantifies over programs containing observers; tied by lockstep replay of debug-family scenarios (the acceptor rejects any other write by a debug caller — this is how F1 was found) plus exclusion/progress oracles. The cv debug functions are covered by lockstep through the progress oracle (and by the Cv layer once it lands).",
+    "level_text": "Buffer half: kernel-checked theorem C16_buffer over the Emit model (emit_init/emit_c/emit_print of debug.c) for every n (incl. 0 and negative) and every NUL-free character stream: writes only inside buf[0..n-1], NUL-terminated for n>=1, ends in '...' when truncated and n>=4, untruncated output is exact; tied by a differential run of the real debug.c (canaries around the buffer, all n in -1..80, states with 0..3 queued waiters). Observer half (mutex): in the MuX protocol a debug-state call is an `observe` call whose only admitted writes toggle MU_SPINLOCK and nothing else; C16_mu_observer proves that a step of an observing thread changes no owner, no client-visible holder, no lock bit and none of the six hint bits (the wake-up bookkeeping), for every reachable state and interleaving, and C01's exclusion theorem quantifies over programs containing observers; tied by lockstep replay of debug-family scenarios (the acceptor rejects any other write by a debug caller — this is how F1 was found) plus exclusion/progress oracles. Observer half (condition variable): the CvFix model contains the debug callers (load; for the *_and_waiters / debugger variants the spinlock loop, the walk over the queue with its loads of `waiting` and `remove_count`, the release store); a step of a thread inside a debug call changes nothing of the cv state but the spinlock bit, the release store writes exactly the word the test-and-set returned, which equals the current word minus the spinlock bit (this uses 'every change of the cv word happens under the spinlock'), so the queue invariant and the no-lost-wake-up theorem of C04 hold in every reachable state of the model WITH observers (C16_cv_observer, C16_cv_observer_release_exact, C16_cv_no_lost_wake); an observer holds the spinlock for a number of own steps bounded by twice the queue length, the non-blocking variants never wait for it, and no observer ever performs a semaphore operation (C16_cv_observer_progress); the records it reads are queued with their owners inside their waits (C16_cv_observer_record_access); a stale release word is rejected (C16_cv_stale_release_rejected). Tied by lockstep replay of the debug family through the CvFix acceptor.",
     "level_note": "Observer half: 'never loses a wake-up / never deadlocks' is proved as 'touches nothing but the spinlock bit' (mutex); the liveness consequence (other threads' progress is unaffected) relies on C02's invariants, which are stated for programs without debug calls — the spinlock is released after finitely many own steps (no loop between the two CASes except the printing). emit_print's varargs formatting is modelled for %s and %i only (all that debug.c uses).",
 }
 
@@ -291,15 +293,18 @@ PROPS["C05"] = {
 
 PROPS["C06"] = {
     "imports": ["NsyncVerif.Props.C06"],
-    "theorems": [MC + t for t in ["C06_cond_under_lock", "C06_inv_lock", "C06_inv_spin", "C06_inv_queue", "C06_hint_partial", "C06_samecond_ring_partial",
-                 "C06_samecond_ring_full_refuted"]],
+    "theorems": [MC + t for t in ["C06_cond_under_lock", "C06_inv_lock", "C06_inv_spin", "C06_inv_queue", "C06_hint_partial", "C06_hint", "C06_hint_all_false",
+                 "C06_samecond_ring_sound", "C06_skip_sound", "C06_samecond_ring_partial", "C06_samecond_ring_full_refuted",
+                 "C06_true_cond_has_responsible", "C06_desig_waker_justified", "C06_no_missed_cond", "C06_no_stuck_state_partial",
+                 "C06_without_wakeup_sound", "C06_without_wakeup_no_missed", "C06_without_wakeup_sound_full_refuted",
+                 "C06_no_stuck_state_old_code_witness", "C06_no_missed_cond_old_code_witness", "C06_quiescent_witness"]],
     "layers": ["muc", "mux"],
     "tie": ["NsyncVerif.Proofs.TieConsts"],
     "oracles": {"cond-under-lock", "muwait-result", "muwait-missed", "stuck", "steplimit", "panic", "crash", "exclusion", "exclusion-ann", "early-timeout", "bad-cancel", "bad-result"},
     "plan": {"quick": [("muc", 160, 8), ("muwait", 100, 8), ("timed_contended", 80, 10), ("muc_eqmix", 100, 10)],
              "thorough": [("muc", 1600, 16), ("muwait", 1000, 16), ("timed_contended", 800, 20), ("muc_eqmix", 1000, 20)]},
-    "level_text": "Kernel-checked theorems over the MuC model (mu.c + mu_wait.c statement by statement: condition records, same-condition rings, unlock_slow's scan with condition evaluation, MU_CONDITION / MU_ALL_FALSE hints, timeouts and cancellations, unlock_without_wakeup; any number of threads): every condition is evaluated by a thread that owns a share of the lock or the writer bit (unlock_slow's temporary writer lock), never concurrently with another thread's write critical section, and it is the condition the queue record prescribes with the value the protected data gives (C06_cond_under_lock); the lock / spinlock / queue invariants of the extended model (C06_inv_lock, C06_inv_spin, C06_inv_queue); MU_CONDITION clear implies no queued waiter has a condition (C06_hint_partial); the skip over a same-condition ring passes only waiters whose condition denotes the predicate just found false, given the ring invariant (C06_samecond_ring_partial). Tied to the code by lockstep replay of the muc / muwait families (2..4 waiters drawn from identical / eq-equivalent / different conditions, reader and writer mode, cv waiters, timeouts and cancellations on the same mutex, unlock_without_wakeup) through the MuC acceptor — which checks, on every explored execution, which conditions the scan evaluates, which waiters it wakes and every word value — and by the interpreter's oracles: termination of every waiter whose condition was made true (stuck), no evaluation concurrent with a writer (cond-under-lock).",
-    "level_note": "PARTIAL: the liveness core of the statement — no waiter whose condition is true is left asleep by nsync_mu_unlock (C06_no_missed_cond_full, C06_no_stuck_state_full), the MU_ALL_FALSE half of the hint invariant (C06_hint_full) and the soundness of unlock_without_wakeup (C06_without_wakeup_sound_full) are stated as definitions but NOT proved; they need the ring invariant as an inductive invariant. For these clauses the check decides by lockstep plus the stuck oracle over the explored schedules only. 'Rings are maximal runs' is refuted (C06_samecond_ring_full_refuted) — harmless: the scan only needs soundness of the skip.",
+    "level_text": "Kernel-checked theorems over the MuC model (mu.c + mu_wait.c — as repaired by ace4c21 — statement by statement: condition records, same-condition rings, unlock_slow's scan with condition evaluation, MU_CONDITION / MU_ALL_FALSE hints, timeouts and cancellations, unlock_without_wakeup; any number of threads): every condition is evaluated by a thread that owns a share of the lock or the writer bit, never concurrently with another thread's write critical section, and it is the condition the queue record prescribes with the value the protected data gives (C06_cond_under_lock); the lock / spinlock / queue invariants (C06_inv_lock, C06_inv_spin, C06_inv_queue); the ring invariant is inductive and the skip over a same-condition ring passes only waiters whose condition is false on the current data (C06_samecond_ring_sound, C06_skip_sound); both hint bits mean what common.h says — MU_CONDITION clear: no queued waiter has a condition; MU_ALL_FALSE set: every queued condition is false on the data as they were when the current write section began (C06_hint, C06_hint_all_false); NO MISSED CONDITION (C06_no_missed_cond): in every reachable state in which a queued waiter's condition is true (and unlock_without_wakeup's contract was kept) some thread is responsible for it — it holds a share, or is an unlocker / a woken thread in flight, or has timed out and is re-acquiring (C06_true_cond_has_responsible); MU_DESIG_WAKER is never set without such a thread (C06_desig_waker_justified); a release by unlock_without_wakeup leaves asleep only waiters whose conditions are false on the data, or somebody else is responsible (C06_without_wakeup_sound, C06_without_wakeup_no_missed); in a quiescent state every thread asleep in nsync_mu_wait is queued with a condition that is false (C06_no_stuck_state_partial). Tied to the code by lockstep replay of the muc / muwait / muc_eqmix / timed_contended families through the MuC acceptor — which checks, on every explored execution, which conditions the scan evaluates, which waiters it wakes and every word value — and by the interpreter's oracles: stuck, muwait-missed (a waiter asleep at quiescence although its condition is true and the mutex is free), cond-under-lock.",
+    "level_note": "Found while proving these invariants: defect F8 (mu_wait.c decided from a stale word whether its release must wake waiters — repaired in /repo, ace4c21; what the pinned code did is recorded by C06_no_missed_cond_old_code_witness / C06_no_stuck_state_old_code_witness against the old rule, and by the corpus regressions). Still a definition without proof: C06_no_stuck_state_full for threads asleep inside nsync_mu_lock / rlock on a mutex that also has condition waiters (it needs 'MU_WRITER_WAITING and MU_LONG_WAIT are never stale' for the extended model; for the core operations that is C02's theorem). The literal C06_without_wakeup_sound_full is refuted as stated (the fast path is also taken under MU_DESIG_WAKER) and proved in corrected form. 'Rings are maximal runs' is refuted — harmless. 'Returns once its condition has been made true' is the safety form (somebody responsible exists); fair termination is a paper step."
 }
 for k in ("C05", "C06", "C11", "C13"):
     NOT_YET.pop(k, None)
